@@ -41,6 +41,13 @@ type C10Case struct {
 	Procs      int       `json:"procs"`
 	CrossProc  bool      `json:"cross_process"`
 	Queries    [][4]int  `json:"queries"` // R-tree query boxes
+	// Via[i]: how pool[i] comes into being: 0 public constructors, 1 parsed from its WKT, 2 from its WKB,
+	// 3 from its GeoJSON, 4 from its TWKB (decoded values may share and over-allocate backing arrays in
+	// ways constructor-built ones do not); used only when the decoded value is identical to the model.
+	Via []int `json:"via,omitempty"`
+	// Invalid: geometries built without validation (C03's generator: rings that touch, cross, overlap, nest);
+	// only Validate and the encoders are called on them: the verdict and the error text must repeat.
+	Invalid []gm.G `json:"invalid,omitempty"`
 }
 
 func c10Gen(t *rapid.T, cx *h.Ctx) C10Case {
@@ -68,6 +75,10 @@ func c10Gen(t *rapid.T, cx *h.Ctx) C10Case {
 		}
 		c.Steps = append(c.Steps, s)
 	}
+	c.Via = rapid.SliceOfN(rapid.IntRange(0, 4), 4, 4).Draw(t, "via")
+	for i := rapid.IntRange(1, 3).Draw(t, "ninvalid"); i > 0; i-- {
+		c.Invalid = append(c.Invalid, c03Gen(t, cx).G)
+	}
 	c.Goroutines = rapid.SampledFrom([]int{2, 3, 4, 8, 16}).Draw(t, "goroutines")
 	c.Procs = rapid.SampledFrom([]int{2, 4, 16}).Draw(t, "procs")
 	c.CrossProc = rapid.IntRange(0, 19).Draw(t, "crossproc") == 0
@@ -87,8 +98,32 @@ type c10Prepared struct {
 
 func c10Prepare(c C10Case) c10Prepared {
 	var p c10Prepared
-	for _, m := range c.Pool {
-		p.pool = append(p.pool, m.ToGeom())
+	for i, m := range c.Pool {
+		g := m.ToGeom()
+		if i < len(c.Via) && !m.Zero {
+			var d geom.Geometry
+			var err error = fmt.Errorf("constructors")
+			switch c.Via[i] {
+			case 1:
+				d, err = geom.UnmarshalWKT(g.AsText(), geom.NoValidate{})
+			case 2:
+				d, err = geom.UnmarshalWKB(g.AsBinary(), geom.NoValidate{})
+			case 3:
+				var b []byte
+				if b, err = g.MarshalJSON(); err == nil {
+					d, err = geom.UnmarshalGeoJSON(b, geom.NoValidate{})
+				}
+			case 4:
+				var b []byte
+				if b, err = geom.MarshalTWKB(g, 7); err == nil {
+					d, err = geom.UnmarshalTWKB(b, geom.NoValidate{})
+				}
+			}
+			if err == nil && gm.Diff(m, gm.FromGeom(d)) == "" {
+				g = d
+			}
+		}
+		p.pool = append(p.pool, g)
 	}
 	funcs := apienum.Funcs()
 	for _, s := range c.Steps {
@@ -111,6 +146,31 @@ func c10Prepare(c C10Case) c10Prepared {
 		p.args = append(p.args, func() *apienum.Args { return &apienum.Args{Pool: ap, Ints: append([]int(nil), ints...)} })
 	}
 	return p
+}
+
+// c10Baseline: a fixed set of read-only observations made of every pool member by every goroutine (besides the
+// drawn program), so that the accessors everybody uses - text, binary, dumps, summaries, envelope, boundary,
+// reversal, coordinate-type forcing - are always exercised concurrently on the shared values.
+func c10Baseline(g geom.Geometry) string {
+	var sb strings.Builder
+	sb.WriteString(g.AsText())
+	fmt.Fprintf(&sb, "|%x|", g.AsBinary())
+	dc := g.DumpCoordinates()
+	fmt.Fprintf(&sb, "%d:%s|", dc.Length(), apienum.Repr(reflect.ValueOf(dc)))
+	sb.WriteString(g.Summary() + "|" + g.String() + "|")
+	for _, m := range g.Dump() {
+		sb.WriteString(m.AsText() + ";")
+	}
+	sb.WriteString("|" + apienum.Repr(reflect.ValueOf(g.Envelope())))
+	sb.WriteString("|" + g.Boundary().AsText())
+	sb.WriteString("|" + g.Reverse().AsText())
+	sb.WriteString("|" + g.Force2D().AsText())
+	sb.WriteString("|" + g.ForceCoordinatesType(geom.DimXYZM).AsText())
+	fmt.Fprintf(&sb, "|%v|%v|%v", g.IsEmpty(), g.Dimension(), g.Validate())
+	if b, err := g.MarshalJSON(); err == nil {
+		sb.Write(b)
+	}
+	return sb.String()
 }
 
 func poolSnapshot(pool []geom.Geometry) []string {
@@ -280,12 +340,51 @@ func c10Check(c C10Case, cx *h.Ctx) *h.Failure {
 		seqSearch = append(seqSearch, tr.search(q))
 	}
 	treeSnap := tr.search([4]int{-100000, -100000, 100000, 100000})
+	base := make([]string, len(p.pool))
+	for i, g := range p.pool {
+		base[i] = c10Baseline(g)
+		if again := c10Baseline(g); again != base[i] {
+			return h.Failf("deterministic/baseline", "the read-only observations of pool[%d] differ between two sequential passes:\n%s\nvs\n%s%s", i, clip(base[i], 400), clip(again, 400), desc())
+		}
+	}
+	if f := purity("the baseline observations"); f != nil {
+		return f
+	}
+	// geometries that need not be valid: the verdict of Validate, with its error text, is a result like any other
+	invObs := func(g geom.Geometry) string {
+		return fmt.Sprintf("%v|%s|%x", g.Validate(), g.AsText(), g.AsBinary())
+	}
+	var invalid []geom.Geometry
+	var invBase []string
+	for _, m := range c.Invalid {
+		g := m.ToGeom()
+		invalid = append(invalid, g)
+		first := invObs(g)
+		for r := 0; r < reps; r++ {
+			if again := invObs(g); again != first {
+				return h.Failf("deterministic/validate", "Validate / encoders of a geometry built without validation differ on repetition %d:\n%s\nvs\n%s\ng = %s", r, clip(first, 400), clip(again, 400), clip(m.String(), 400))
+			}
+		}
+		invBase = append(invBase, first)
+	}
 	var wg sync.WaitGroup
 	errs := make([]string, c.Goroutines)
 	for gi := 0; gi < c.Goroutines; gi++ {
 		wg.Add(1)
 		go func(gi int) {
 			defer wg.Done()
+			for i, g := range invalid {
+				if s := invObs(g); s != invBase[i] {
+					errs[gi] = fmt.Sprintf("goroutine %d: Validate/encoders of invalid[%d]: %s\nsequential: %s", gi, i, clip(s, 400), clip(invBase[i], 400))
+					return
+				}
+			}
+			for i, g := range p.pool {
+				if s := c10Baseline(g); s != base[i] {
+					errs[gi] = fmt.Sprintf("goroutine %d: baseline observations of pool[%d]: %s\nsequential: %s", gi, i, clip(s, 400), clip(base[i], 400))
+					return
+				}
+			}
 			for k := range p.calls {
 				i := (k + gi*3) % len(p.calls) // different goroutines start at different steps
 				res := apienum.Invoke(p.calls[i], p.args[i]())
